@@ -163,12 +163,25 @@ def fde_part(run, np):
                         opts.append(dict(resp=resp, nbins=nbins, T0=T0, rolloff=rolloff, hpfilter=hp, winends=we))
     if run.tier == "quick":
         opts = opts[::3]
-    for oi, kw in enumerate(opts):
-        sr = 400.0
-        t = np.arange(0, 1.5, 1 / sr)
-        sig = rng.standard_normal(t.size) + 0.5 * np.sin(2 * np.pi * 35 * t)
-        freq = np.array([20.0, 35.0, 50.0, 71.0])
-        case = dict(kw, signal_seed=run.seed + 5, index=oi)
+    # short transients analysed around 1/duration: very few rainflow cycles (totals of 1.0, 1.5, 2.0 cycles)
+    transient = dict(resp="absacce", nbins=8, T0=20.0, rolloff="none", hpfilter=None, winends=None, detrend=False)
+    opts_all = [(kw, "random") for kw in opts] + [(dict(transient, resp=r), kind) for r in ("absacce", "pvelo")
+                                                  for kind in ("decaying-sine", "half-sine", "one-cycle")]
+    for oi, (kw, sigkind) in enumerate(opts_all):
+        sr = 400.0 if sigkind == "random" else 200.0
+        t = np.arange(0, 1.5 if sigkind == "random" else 1.0, 1 / sr)
+        if sigkind == "random":
+            sig = rng.standard_normal(t.size) + 0.5 * np.sin(2 * np.pi * 35 * t)
+            freq = np.array([20.0, 35.0, 50.0, 71.0])
+        else:
+            if sigkind == "decaying-sine":
+                sig = np.exp(-3 * t) * np.sin(2 * np.pi * 1.0 * t)
+            elif sigkind == "half-sine":
+                sig = np.where(t < 0.25, np.sin(np.pi * t / 0.25), 0.0)
+            else:
+                sig = np.where(t < 0.5, np.sin(2 * np.pi * t / 0.5), 0.0)
+            freq = np.array([0.3, 0.5, 0.8, 1.2, 2.0, 3.0])
+        case = dict(kw, signal=sigkind, signal_seed=run.seed + 5, index=oi)
         run.case(json.dumps(case), part="fdepsd")
         try:
             out = fdepsd.fdepsd(sig, sr, freq, 12.0, parallel="no", **kw)
@@ -187,7 +200,7 @@ def fde_part(run, np):
         amax = out.peakamp["G1"].values / np.sqrt(2 * np.log(freq * kw["T0"])) * 0 + amps[:, -1] * kw["nbins"] / (kw["nbins"] - 1)
         if np.any(amax > out.srs.values * (1 + 1e-12)):
             run.violation("largest cycle amplitude exceeds the SRS peak", case, {"fn": "fdepsd"})
-        if np.any(out.psd["G2"].values < out.psd["G1"].values * (1 - 1e-12)):
+        if not np.all(out.psd["G2"].values >= out.psd["G1"].values * (1 - 1e-12)):
             run.violation("G2 < G1", case, {"fn": "fdepsd"})
         for bi, b in enumerate((4, 8, 12)):
             di = np.array([(amps[j] ** b) @ binc[j] for j in range(len(freq))])
